@@ -202,6 +202,7 @@ struct Field {
     map: Option<u32>,
     missing_fn: Option<u32>,
     err1: bool,
+    needs_predicate: bool,
 }
 
 impl Field {
@@ -242,6 +243,7 @@ fn gen_fields(r: &mut R, pool: &[PoolTy], pinned: bool, max: usize, avoid_key: O
             map: None,
             missing_fn: None,
             err1: false,
+            needs_predicate: false,
         };
         // conversion
         let c = r.below(10);
@@ -280,6 +282,10 @@ fn gen_fields(r: &mut R, pool: &[PoolTy], pinned: bool, max: usize, avoid_key: O
         }
         if pinned && !f.skip && r.chance(0.4) {
             f.err1 = true;
+        }
+        // an extra where-clause on the impl; no runtime meaning
+        if !pinned && r.chance(0.08) {
+            f.needs_predicate = true;
         }
         fields.push(f);
     }
@@ -323,6 +329,9 @@ fn field_attr_items(f: &Field) -> Vec<String> {
     }
     if f.err1 {
         items.push("error = Rec<1>".into());
+    }
+    if f.needs_predicate {
+        items.push("needs_predicate".into());
     }
     items
 }
